@@ -25,6 +25,7 @@ def shapes_upto(total, rnd, cap=None):
 def real_verdict(cfgc, seed):
     app, exc, info = EC.build_app(cfgc, seed)
     info = dict((k, v) for k, v in info.items() if k in ('ep_kind', 'rn_kind', 'pattern'))
+    info['build_seed'] = seed
     return ('accept' if exc is None else type(exc).__name__), info, (repr(exc)[:200] if exc else None)
 
 
@@ -113,6 +114,23 @@ def check_shape(args):
             rv, info, excr = real_verdict(cc, rnd.randrange(1000))
             out['validated'] += 1
             if mv != rv and not (rv == 'IndexError' and mv == 'TypeError'):
+                # who is wrong?  When the REAL verdict also contradicts the statement (declarative side) this is a violation
+                # found by the validation leg (e.g. signature extraction or merging, which the interpreter summarises);
+                # when the real code agrees with the statement the translator is wrong (harness error)
+                sp = dict((k, z3.is_true(m.eval(getattr(cfg, k), model_completion=True)))
+                          for k in ('deps_ok', 'conflict', 'first_param', 'next_misuse', 'context_misuse', 'cyclic'))
+                misuse = sp['conflict'] or sp['first_param'] or sp['next_misuse'] or sp['context_misuse']
+                qn = None
+                if not sp['cyclic']:
+                    if not misuse and sp['deps_ok'] != (rv == 'accept'):
+                        qn = 'c01_iff'
+                    elif misuse and rv == 'accept':
+                        qn = 'c04_reject'
+                if qn is not None and qn in queries:
+                    out['queries'].append(dict(q=qn, r='sat', t=0.0, config=cc, model_verdict=mv, spec=sp, real_verdict=rv, info=info, real_exc=excr, validation_leg=True))
+                    continue
+                if qn is not None:
+                    continue          # belongs to the other property's check
                 out['error'] = 'translator validation: interpreter says %s, real code says %s (%s) for %s' % (mv, rv, excr, json.dumps(cc)[:1500])
                 break
     except Unsupported as e:
